@@ -37,10 +37,10 @@ def make_jobs(rng, n):
         kw = kwargs_json(cfg)
         if rng.random() < 0.4:
             # the caller already uses some (never all four) of the default prefixes for shapes
-            taken = rng.sample(PRIORITY, rng.randint(1, 3))
             nsd = dict(kw.get('namespaces_dict') or {})
-            for t_i, pre in enumerate(taken):
-                nsd['http://taken%d.example.org/' % t_i] = pre
+            for t_i, pre in enumerate(rng.sample(PRIORITY, rng.randint(1, 3))):
+                if pre not in nsd.values() and sum(1 for v in nsd.values() if v in PRIORITY) < 3:   # never all four: then the prefix is random by design
+                    nsd['http://taken%d.example.org/' % t_i] = pre
             kw['namespaces_dict'] = nsd
         r = rng.random()
         tmode = 'cfg'
